@@ -377,7 +377,7 @@ func stripInsignificantWS(s string) string {
 
 const c15imported = `module g { namespace "urn:g"; prefix g; revision 2020-01-01;
  identity gbase; identity gd { base gbase; }
- grouping grp { leaf gl { type string; } leaf gi { type identityref { base gbase; } } container gc { leaf gx { type int32; } } }
+ grouping grp { leaf gl { type string; } leaf gi { type identityref { base gbase; } } container gc { leaf gx { type int32; } choice gch { case ca { leaf gca { type string; } } } } }
 }`
 
 // identityref defined in the imported module g: identities of g itself are written bare, those of m qualified
@@ -392,16 +392,24 @@ var c15gIdentType = c15type{"identityref-g", "identityref { base g:gbase; }", fu
 // a leaf that m augments into that grouping's container (namespace urn:m again), and loads it.
 func c15module(sc *c15schema, ts []c15type) (*meta.Module, string, error) {
 	gc := &gen.SNode{Name: "gwrap", Kind: "cont", Kids: []*gen.SNode{{Name: "gl", Kind: "leaf", Type: "string"}, {Name: "gi", Kind: "leaf", Type: "identityref"},
-		{Name: "gc", Kind: "cont", Kids: []*gen.SNode{{Name: "gx", Kind: "leaf", Type: "int32"}, {Name: "ga", Kind: "leaf", Type: "string"}}}}}
+		{Name: "gc", Kind: "cont", Kids: []*gen.SNode{{Name: "gx", Kind: "leaf", Type: "int32"},
+			// a choice of the imported grouping to which m adds a case of its own: the nodes of that case are m's inside g's container
+			{Name: "gch", Kind: "choice", Cases: []*gen.SCase{{Name: "ca", Kids: []*gen.SNode{{Name: "gca", Kind: "leaf", Type: "string"}}},
+				{Name: "cm", Kids: []*gen.SNode{{Name: "gcm", Kind: "leaf", Type: "string"}, {Name: "gcc", Kind: "cont", Kids: []*gen.SNode{{Name: "gq", Kind: "leaf", Type: "string"}}}}}}},
+			{Name: "ga", Kind: "leaf", Type: "string"}}}}}
 	sc.mod["gwrap"], sc.mod["gl"], sc.mod["gi"], sc.mod["gc"], sc.mod["gx"], sc.mod["ga"] = "m", "g", "g", "g", "g", "m"
+	sc.mod["gca"], sc.mod["gcm"], sc.mod["gcc"], sc.mod["gq"] = "g", "m", "m", "m"
 	sc.types["gl"], sc.types["gi"], sc.types["gx"], sc.types["ga"] = ts[0], c15gIdentType, ts[3], ts[0]
+	sc.types["gca"], sc.types["gcm"], sc.types["gq"] = ts[0], ts[0], ts[0]
 	sc.kids = append(sc.kids, gc)
 	y := "module m { namespace \"urn:m\"; prefix m; import g { prefix g; } revision 2020-01-01;\n identity idb; identity d1 { base idb; } identity d2 { base d1; } identity md { base g:gbase; }\n" +
-		c15yang(sc, sc.kids[:len(sc.kids)-1], "  ") + "  container gwrap { uses g:grp { augment gc { leaf ga { type string; } } } }\n}\n"
+		c15yang(sc, sc.kids[:len(sc.kids)-1], "  ") + "  container gwrap { uses g:grp { augment gc/gch { case cm { leaf gcm { type string; } container gcc { leaf gq { type string; } } } } augment gc { leaf ga { type string; } } } }\n}\n"
 	opener := source.Any(source.Named("m", strings.NewReader(y)), source.Named("g", strings.NewReader(c15imported)))
 	m, err := parser.LoadModule(opener, "m")
 	return m, y, err
 }
+
+var c15reused [8]*nodeutil.JSONWtr
 
 func C15(c *core.Ctx) {
 	c.Rule = "generated schemas (every built-in leaf type incl. empty, enum, bits, identityref, union, 64-bit extremes, leaf-lists; containers, keyed lists, nodes contributed by a grouping of an imported module) × conforming trees × all 8 writer configurations (Pretty × EnumAsIds × QualifyNamespace) × start selection (root, container, list, list entry); output (i) parsed by encoding/json as exactly one value and compared with the expected RFC 7951 value, (ii) compared byte-for-byte with the Lean writer model (compact), (iii) pretty output minus insignificant white space = compact output, (iv) failing output stream at every byte position of small documents. non-trivial = document with ≥2 members and a nested container or list; distinct by (schema, tree, configuration, start)"
@@ -505,6 +513,14 @@ func C15(c *core.Ctx) {
 					pretty, ids, qual := cfg&1 != 0, cfg&2 != 0, cfg&4 != 0
 					var buf bytes.Buffer
 					w := &nodeutil.JSONWtr{Out: &buf, Pretty: pretty, EnumAsIds: ids, QualifyNamespace: qual}
+					if c15reused[cfg] == nil {
+						c15reused[cfg] = &nodeutil.JSONWtr{Pretty: pretty, EnumAsIds: ids, QualifyNamespace: qual}
+					}
+					if (si+di)%2 == 1 {
+						// one writer per configuration serving document after document, retargeted each time
+						w = c15reused[cfg]
+						w.Out = &buf
+					}
 					werr := safeDo(func() error { return sel.UpsertInto(w.Node()) })
 					out := buf.String()
 					c.Evaluations++
